@@ -579,16 +579,31 @@ func (n *BinaryNode) Format(buf *bytes.Buffer, indent string, onNewLine bool) {
 	formatOperand(buf, indent, false, n.Left, needsParensIn(n.Operator, n.Left, false))
 	buf.WriteByte(' ')
 	buf.WriteString(n.Operator.String())
-	if n.MultiLine {
+	multiLine := n.formatsMultiLine()
+	if multiLine {
 		buf.WriteByte('\n')
 	} else {
 		buf.WriteByte(' ')
 	}
-	formatOperand(buf, indent, n.MultiLine, n.Right, needsParensIn(n.Operator, n.Right, true))
+	formatOperand(buf, indent, multiLine, n.Right, needsParensIn(n.Operator, n.Right, true))
 	if n.Parens {
 		buf.WriteByte(')')
 	}
 }
+// formatsMultiLine reports whether the right operand goes on a new line.
+// The line break written after the operator of a multi-line left operand lies between the
+// positions the parser compares for this node, so the next parse finds this node multi-line
+// as well: break here at once instead of one nesting level per formatting pass.
+func (n *BinaryNode) formatsMultiLine() bool {
+	if n.MultiLine {
+		return true
+	}
+	if l, ok := n.Left.(*BinaryNode); ok {
+		return l.formatsMultiLine()
+	}
+	return false
+}
+
 func (n *BinaryNode) SetComment(c *CommentNode) {
 	n.Comment = c
 }
